@@ -143,6 +143,14 @@ func (w *world) alphabet(profile string) []letter {
 		ls = append(ls, envLetters(txs[0])...)
 	}
 	if w.opts.Runtime {
+		for _, rs := range []roundSpec{
+			{Who: "all"}, {Who: "all", Msgs: "transfer", InMsgs: "all"}, {Who: "scheduler"}, {Who: "dissent"}, {Who: "failure"}, {Who: "backup"},
+			{Who: "all", Msgs: "withdraw"}, {Who: "all", Msgs: "addescrow", InMsgs: "all"}, {Who: "all", Msgs: "reclaim"}, {Who: "all", Msgs: "update-runtime"},
+			{Who: "all", Msgs: "update-runtime-kind"}, {Who: "all", Msgs: "bad"}, {Who: "all", Msgs: "transfer-all"}, {Who: "all", InMsgs: "wronghash"},
+		} {
+			rs := rs
+			ls = append(ls, letter{Name: rs.String(), Round: &rs})
+		}
 		for _, t := range w.runtimeTxs() {
 			switch t.Name {
 			case "submitmsg(a0,fee1,tokens2)", "submitmsg(a1,fee3,tokens0)", "runtime-update(e0,max-in-msgs+1)", "runtime-update(e0,owner->e1)", "runtime-new(e1)", "executor-commit(n0,empty)", "roothash-evidence(a0,empty)":
